@@ -7,8 +7,8 @@
   pool replaced by the proxy and "removed from the pool while finished and complete" recorded in the
   `tr` (transient) flag.  `SchedLemmasC09.pm_lookup` proves that `Sched.processMessage` acts on the
   addressed proxy exactly as `Msg.step`, for every instance graph without self-triggering children.
-* `XOp` adds the op `poll` (a poll result delivered by the job-poll callback: the same
-  `process_message` with `FLAG_POLLED`) to the frozen `Sched.Op`; `stepX`/`runX` extend
+* `XOp` adds the op `poll` (the result of a jobs-poll command, dispatched by submit number and then
+  processed by the same `process_message` with `FLAG_POLLED`) to the frozen `Sched.Op`; `stepX`/`runX` extend
   `Sched.step`/`Sched.run` conservatively (`runX_base`).
 
 Anchors: cylc/flow/task_events_mgr.py (process_message, _process_message_check and helpers),
@@ -159,11 +159,20 @@ inductive XOp where
   | poll (pt : Int) (name : String) (sn : Nat) (text : String)
   deriving Repr
 
-/-- `_poll_task_job_callback` → `process_message(..., FLAG_POLLED)` (polls carry no submit number:
-`sn` is only threaded to the implied internal messages, where it is not looked at) -/
+/-- the result of a jobs-poll command for job (p, n, sn).  `_poll_task_jobs_callback` hands the output
+line to the task proxy it finds under point / name / CURRENT submit number (`_manip_task_jobs_callback`;
+proxies that were never submitted are not looked up), so the result of an older job is dropped there;
+`_poll_task_job_callback` then turns the job status into a message and calls
+`process_message(..., FLAG_POLLED)`, which itself never looks at submit numbers. -/
+def pollMatches (s : State) (p : Int) (n : String) (sn : Nat) : Bool :=
+  match s.get? p n with
+  | some x => x.submitNum == sn && sn != 0
+  | none => false
+
 def stepX (g : Graph) (s : State) : XOp → State
   | .base op => Sched.step g s op
-  | .poll p n sn text => (processMessage g 4 (clearOp s) p n .polled sn text).1
+  | .poll p n sn text =>
+    if pollMatches s p n sn then (processMessage g 4 (clearOp s) p n .polled sn text).1 else clearOp s
 
 def runX (g : Graph) (ops : List XOp) : List State :=
   (ops.foldl (fun (acc : List State × State) op =>
